@@ -258,15 +258,21 @@ def run_query(builder, q, vars_, tier, workroot):
                 continue
             if desc.startswith('canary_other'): continue
             labels = lm.get(line, []) if line else []
+            if line and not labels and ('loop_invariant' in prop or 'loop_decreases' in prop):
+                # loop obligations are located at the loop head; the invariant clauses follow within a few lines
+                for l2 in range(line + 1, line + 10):
+                    if any('#loop' in x for x in lm.get(l2, [])):
+                        labels = [x for x in lm[l2] if '#loop' in x]; break
             cls = prop.split('.')[-2] if prop.count('.') >= 2 else prop
             classes.add(cls)
             srcl = nearest_src(slm, line) if line else None
-            if labels and ('ensures' in desc or 'invariant' in desc or 'postcondition' in prop or 'loop_invariant' in prop):
+            if labels and ('ensures' in desc or 'invariant' in desc or 'postcondition' in prop or 'loop_invariant' in prop or 'loop_decreases' in prop):
                 lab = '+'.join(l.split('#', 1)[1] for l in labels)
                 fnl = labels[0].split('#', 1)[0]
                 step = ''
                 if 'loop_invariant_base' in prop: step = '@base'
                 elif 'loop_invariant_step' in prop: step = '@step'
+                elif 'loop_decreases' in prop: step = '@decreases'
                 oname = '%s#%s%s' % (fnl, lab, step)
             else:
                 what = re.sub(r"\s+", ' ', desc)
